@@ -18,6 +18,44 @@ theorem truth_ofTV (t : TV) : truth (ofTV t) = t := by
   | none => rfl
   | some b => cases b <;> rfl
 
+theorem fnVal_concat (vs : List Val) : fnVal "concat" vs = concatAllVal vs := by
+  simp [fnVal]
+
+theorem coreBin_not_div {op : Op} (h : coreBin op = true) : coreDiv op = false := by
+  cases op <;> simp [coreBin] at h <;> rfl
+
+theorem coreList_not_div {op : Op} (h : coreList op = true) : coreDiv op = false := by
+  cases op <;> simp [coreList] at h <;> rfl
+
+theorem evalCore_binary (env : String → Val) (d : Dialect) (op : Op) (l r : SaExpr) (n : Option Op)
+    (esc : Option String) (ty : Ty) (h : coreDiv op = false) :
+    evalCore env d (.binary op l r n esc ty) = binVal op (evalCore env d l) (evalCore env d r) := by
+  cases op <;> simp [coreDiv] at h <;> rfl
+
+theorem evalCore_div (env : String → Val) (d : Dialect) (op : Op) (l r : SaExpr) (n : Option Op)
+    (esc : Option String) (ty : Ty) (h : coreDiv op = true) :
+    evalCore env d (.binary op l r n esc ty) =
+      divVal d op (SaExpr.tyOf l) (SaExpr.tyOf r) (evalCore env d l) (evalCore env d r) := by
+  cases op <;> simp [coreDiv] at h <;> rfl
+
+theorem evalG_truedivG (env : String → Val) (d : Dialect) (lt rt : Ty) (L R : G) (a b : Val)
+    (hL : evalG (stdI env) L = .s a) (hR : evalG (stdI env) R = .s b) :
+    evalG (stdI env) (truedivG d L R) = .s (divVal d .truediv lt rt a b) := by
+  unfold truedivG divVal
+  split
+  · simp only [evalG, hL, hR]; rfl
+  · split
+    · simp only [evalG, hL, hR]; rfl
+    · simp only [evalG, hL, hR]; rfl
+
+theorem evalG_floordivG (env : String → Val) (d : Dialect) (lt rt : Ty) (L R : G) (a b : Val)
+    (hL : evalG (stdI env) L = .s a) (hR : evalG (stdI env) R = .s b) :
+    evalG (stdI env) (floordivG d lt rt L R) = .s (divVal d .floordiv lt rt a b) := by
+  unfold floordivG divVal
+  split
+  · simp only [evalG, hL, hR]; rfl
+  · simp only [evalG, hL, hR]; rfl
+
 theorem stdInf_core (op : Op) (h : coreBin op = true ∨ coreList op = true) (a b : Val) :
     stdInf (symOf op) (.s a) (.s b) = .s (binVal op a b) := by
   rcases h with h | h
@@ -184,11 +222,25 @@ theorem evalG_render (env : String → Val) (d : Dialect) :
     rfl
   | .binary op l r n esc ty, hc => by
     simp only [Core, Bool.and_eq_true] at hc
-    obtain ⟨txt, heq⟩ := render_coreBin d true op l r n esc ty hc.1.1.1
-    rw [heq]
-    show stdInf (symOf op) (evalG (stdI env) (render d true l)) (evalG (stdI env) (render d true r)) = _
-    rw [evalG_render env d l hc.1.2, evalG_render env d r hc.2, stdInf_core op (Or.inl hc.1.1.1)]
-    rfl
+    rcases coreBinD_cases hc.1.1.1 with hop | hdiv
+    · by_cases hcf : catFn d op = true
+      · rw [render_catFn_bin d true op l r n esc ty hcf]
+        obtain ⟨ho, _⟩ := catFn_true hcf
+        subst ho
+        show SV.s (fnVal "concat" ((evalG (stdI env) (render d true l)).items ++
+          (evalG (stdI env) (render d true r)).items)) = _
+        rw [evalG_render env d l hc.1.2, evalG_render env d r hc.2, fnVal_concat,
+          evalCore_binary env d .concat_op l r n esc ty rfl]
+        rfl
+      obtain ⟨txt, heq⟩ := render_coreBin d true op l r n esc ty hop (by simpa using hcf)
+      rw [heq]
+      show stdInf (symOf op) (evalG (stdI env) (render d true l)) (evalG (stdI env) (render d true r)) = _
+      rw [evalG_render env d l hc.1.2, evalG_render env d r hc.2, stdInf_core op (Or.inl hop),
+        evalCore_binary env d op l r n esc ty (coreBin_not_div hop)]
+    · rw [evalCore_div env d op l r n esc ty hdiv]
+      cases op <;> simp [coreDiv] at hdiv
+      · exact evalG_truedivG env d _ _ _ _ _ _ (evalG_render env d l hc.1.2) (evalG_render env d r hc.2)
+      · exact evalG_floordivG env d _ _ _ _ _ _ (evalG_render env d l hc.1.2) (evalG_render env d r hc.2)
   | .unary op e ty, hc => by
     simp only [Core, Bool.and_eq_true] at hc
     rw [render_unary]
@@ -202,8 +254,21 @@ theorem evalG_render (env : String → Val) (d : Dialect) :
   | .clist op cs gr bl ty, hc => by
     simp only [Core, Bool.and_eq_true, decide_eq_true_eq] at hc
     obtain ⟨⟨⟨hop, _⟩, hlen⟩, hcs⟩ := hc
-    rw [render_clist d true op cs gr bl ty (coreList_ne_concat hop)]
     have hl := evalG_renderList env d cs hcs
+    by_cases hcf : catFn d op = true
+    · rw [render_catFn_list d true op cs gr bl ty hcf]
+      obtain ⟨ho, _⟩ := catFn_true hcf
+      subst ho
+      have hne : renderList d true cs ≠ [] := by
+        cases cs with
+        | nil => simp at hlen
+        | cons a as => simp [renderList_cons]
+      show SV.s (fnVal "concat" (evalG (stdI env) (chain .comma ", " (renderList d true cs))).items) = _
+      rw [items_chain_comma env _ _ hne hl, fnVal_concat]
+      cases cs with
+      | nil => simp at hlen
+      | cons c cs' => rfl
+    rw [render_clist d true op cs gr bl ty (by simpa using hcf)]
     cases cs with
     | nil => simp at hlen
     | cons c cs =>
@@ -312,11 +377,24 @@ theorem selfGroup_eval (env : String → Val) (d : Dialect) (a : Op) (x : SaExpr
       · exact Or.inr h
     cases x <;> first | rfl | (rcases hcol with h' | h' <;> simp_all [NonAtom]) | (simp [Core] at hc)
 
+theorem tyOf_selfGroup (a : Op) (x : SaExpr) (hb : boolCtx a = false) :
+    tyOf (selfGroup (some a) x) = tyOf x := by
+  unfold selfGroup
+  by_cases hg : wouldGroup (some a) x = true
+  · simp only [hg, if_true]; rfl
+  · have hg' : wouldGroup (some a) x = false := by simpa using hg
+    simp only [hg', Bool.false_eq_true, if_false]
+    have hcol : columnSelfGroup (some a) x = x := by
+      simp only [boolCtx, Bool.or_eq_false_iff, decide_eq_false_iff_not] at hb
+      simp [columnSelfGroup, hb.1.1, hb.1.2, hb.2]
+    cases x <;> first | rfl | (show tyOf (columnSelfGroup _ _) = _; rw [hcol])
+
 theorem mkBinary_eval (env : String → Val) (d : Dialect) (l r : SaExpr) (op : Op) (ty : Ty) (n : Option Op)
     (hop : coreBin op = true) (hcl : Core l = true) (hcr : Core r = true) :
     evalCore env d (mkBinary l r op ty n none) = binVal op (evalCore env d l) (evalCore env d r) := by
-  simp only [mkBinary, evalCore]
-  rw [selfGroup_eval env d op l hcl (Or.inl (coreBin_not_boolCtx hop)),
+  simp only [mkBinary]
+  rw [evalCore_binary env d op _ _ n none ty (coreBin_not_div hop),
+    selfGroup_eval env d op l hcl (Or.inl (coreBin_not_boolCtx hop)),
     selfGroup_eval env d op r hcr (Or.inl (coreBin_not_boolCtx hop))]
 
 theorem evalCoreList_map_selfGroup (env : String → Val) (d : Dialect) (op : Op) (hb : boolCtx op = false ∨ True) :
@@ -338,6 +416,7 @@ theorem binVal_assoc (op : Op) (h : coreList op = true) (a b c : Val) :
   cases op <;> simp [coreList] at h
   · cases a <;> cases b <;> cases c <;> simp [binVal, evalArith, Int.add_assoc]
   · cases a <;> cases b <;> cases c <;> simp [binVal, evalArith, Int.mul_assoc]
+  · cases a <;> cases b <;> cases c <;> simp [binVal, evalArith, String.append_assoc]
   · simp only [binVal, evalArith, truth_ofTV]
     congr 1
     cases truth a with
@@ -394,17 +473,19 @@ theorem foldVals_append (op : Op) (h : coreList op = true) (as bs : List Val)
       rw [foldl_binVal_assoc op h]
 
 /-- the operands taken over from a child that is itself a chain of `op` fold to its value -/
-theorem flattened_eval (env : String → Val) (d : Dialect) (op : Op) : ∀ l : SaExpr, operatorOf l = some op →
+theorem flattened_eval (env : String → Val) (d : Dialect) (op : Op) (hnd : coreDiv op = false) :
+    ∀ l : SaExpr, operatorOf l = some op →
     Core l = true → foldVals op (evalCoreList env d (flattened l)) = evalCore env d l
   | .binary op' a b n esc ty, ho, _ => by
     simp only [operatorOf, Option.some.injEq] at ho; subst ho
+    rw [evalCore_binary env d op' a b n esc ty hnd]
     rfl
   | .clist op' cs gr bl ty, ho, _ => by
     simp only [operatorOf, Option.some.injEq] at ho; subst ho
     rfl
   | .grouping e, ho, hc => by
     simp only [flattened]
-    exact flattened_eval env d op e (by simpa [operatorOf] using ho) (by simpa [Core] using hc)
+    exact flattened_eval env d op hnd e (by simpa [operatorOf] using ho) (by simpa [Core] using hc)
   | .unary op' e ty, ho, hc => by
     simp only [operatorOf, Option.some.injEq] at ho; subst ho
     simp only [flattened, evalCoreList, foldVals, List.foldl_nil]
@@ -447,10 +528,10 @@ theorem constructForOp_eval (env : String → Val) (d : Dialect) (l r : SaExpr) 
       · rw [evalCoreList_append, foldVals_append op hcL]
         · congr 1
           · split
-            · rename_i h1; exact flattened_eval env d op l h1.1 hcl
+            · rename_i h1; exact flattened_eval env d op (coreBin_not_div hop) l h1.1 hcl
             · rfl
           · split
-            · rename_i h1; exact flattened_eval env d op r h1.1 hcr
+            · rename_i h1; exact flattened_eval env d op (coreBin_not_div hop) r h1.1 hcr
             · rfl
         · apply evalCoreList_ne_nil
           split
@@ -548,8 +629,9 @@ theorem negate_eval (env : String → Val) (d : Dialect) (e : SaExpr) (h : BoolE
         simp only [Core, Bool.and_eq_true] at hc
         simp only [negate, negateInBinary_core r n op hc.2]
         refine ⟨?_, ?_⟩
-        · rw [mkBinary_eval env d l r n ty (some op) hsh hc.1.2 hc.2]
-          simp only [evalCore]
+        · simp only [Bool.and_eq_true] at hsh
+          rw [mkBinary_eval env d l r n ty (some op) hsh.2 hc.1.2 hc.2,
+            evalCore_binary env d op l r (some n) none ty (coreBin_not_div hsh.1)]
           exact hs.1 _ _
         · simp only [mkBinary, negSound]
           exact ⟨hs.2, hs.1⟩
@@ -689,7 +771,7 @@ theorem boolConstruct_multi_eval (env : String → Val) (d : Dialect) (operator 
     simp only [Function.comp]
     split
     · rename_i ho
-      rw [flattened_eval env d operator _ ho cy, selfGroup_eval env d operator x bx.core (Or.inr (hna x hx))]
+      rw [flattened_eval env d operator (coreList_not_div hcl) _ ho cy, selfGroup_eval env d operator x bx.core (Or.inr (hna x hx))]
     · simp only [evalCoreList, foldVals, List.foldl_nil]
       exact selfGroup_eval env d operator x bx.core (Or.inr (hna x hx))
   · cases cs with
@@ -812,7 +894,7 @@ theorem caseSimple_eval (env : String → Val) (d : Dialect) (v : Val) :
     | [], h => simp at h
     | [_], h => simp at h; omega
 
-theorem booleanCompare_num_eq (x y : SaExpr) (k : BinK) (hk : cmpK k = true) (hy : NumE y) :
+theorem booleanCompare_num_eq (x y : SaExpr) (k : BinK) (hk : cmpK k = true) (hy : OpndE y) :
     booleanCompare x k.op y (negateOp k.op) none =
       some (constructForOp x y k.op .bool (negateOp k.op) none) := by
   have hs := hy.shape
@@ -961,19 +1043,35 @@ theorem build_num_eval (env : String → Val) (d : Dialect) : ∀ (u : U) (e : S
       cases hb' : build b with
       | none => simp [ha, hb'] at hb
       | some y =>
-        simp only [ha, hb', arithK_isArith k hu.1.1, if_true, Option.some.injEq] at hb
+        simp only [ha, hb', numK_isArith k hu.1.1, if_true, Option.some.injEq] at hb
         subst hb
         have nx := build_num a x hu.1.2 ha
         have ny := build_num b y hu.2 hb'
+        have ihx := build_num_eval env d a x hu.1.2 hn.1.2 ha
+        have ihy := build_num_eval env d b y hu.2 hn.2 hb'
         obtain ⟨h1, _⟩ := adapt_num k.op (tyOf x) (tyOf y) nx.ty
         unfold binaryOperate
         have e : adaptExpression k.op (tyOf x) (tyOf y) =
             (k.op, (adaptExpression k.op (tyOf x) (tyOf y)).2) := Prod.ext h1 rfl
         rw [e]
         simp only
-        rw [constructForOp_eval env d x y k.op _ none (arithK_coreBin k hu.1.1) nx.core nx.wg ny.core ny.wg,
-          build_num_eval env d a x hu.1.2 hn.1.2 ha, build_num_eval env d b y hu.2 hn.2 hb']
-        simp only [evalNumU]
+        rcases numK_cases hu.1.1 with hk | hk
+        · rw [constructForOp_eval env d x y k.op _ none (arithK_coreBin k hk) nx.core nx.wg ny.core ny.wg,
+            ihx, ihy]
+          cases k <;> simp [arithK] at hk <;> simp only [evalNumU]
+        · have hcd := divK_coreDiv k hk
+          have hbc := coreBinD_not_boolCtx (coreBinD_of_div hcd)
+          obtain ⟨he, _, _⟩ := constructForOp_div x y k.op (adaptExpression k.op (tyOf x) (tyOf y)).2 none
+            hcd nx.core nx.wg ny.core ny.wg
+          rw [he]
+          simp only [mkBinary]
+          rw [evalCore_div env d k.op _ _ none none _ hcd,
+            selfGroup_eval env d k.op x nx.core (Or.inl hbc),
+            selfGroup_eval env d k.op y ny.core (Or.inl hbc),
+            tyOf_selfGroup k.op x hbc, tyOf_selfGroup k.op y hbc, ihx, ihy]
+          have tx : tyU a = tyOf x := by simp [tyU, ha]
+          have ty' : tyU b = tyOf y := by simp [tyU, hb']
+          cases k <;> simp [divK] at hk <;> simp only [evalNumU, tx, ty', BinK.op]
   | .ls _, _, hu, _, _ => by simp [NumU] at hu
   | .lb _, _, hu, _, _ => by simp [NumU] at hu
   | .null, _, hu, _, _ => by simp [NumU] at hu
@@ -1039,6 +1137,75 @@ theorem build_searched_eval (env : String → Val) (d : Dialect) : ∀ (us : Lis
           have ih := build_searched_eval env d rest rest' hu.2 hn.2.2 h3 tail
           simp only [evalCoreList, List.cons_append, caseSearchedVal, evalSearched, bc, nr, ih]
 
+/-- **build_str_eval**: the element built for a string-valued tree has the tree's value -/
+theorem build_str_eval (env : String → Val) (d : Dialect) : ∀ (u : U) (e : SaExpr), StrU u = true →
+    noIsGen u = true → build u = some e → evalCore env d e = evalNumU env d u
+  | .col n ty, e, _, _, hb => by
+    simp only [build, Option.some.injEq] at hb; subst hb; simp only [evalCore, evalNumU]
+  | .ls s, e, _, _, hb => by
+    simp only [build, Option.some.injEq] at hb; subst hb; simp only [evalCore, evalNumU, litVal]
+  | .bin k a b, e, hu, hn, hb => by
+    simp only [StrU, Bool.and_eq_true, Bool.or_eq_true, decide_eq_true_eq] at hu
+    obtain ⟨⟨hk, hua⟩, hub⟩ := hu
+    subst hk
+    simp only [noIsGen, Bool.and_eq_true] at hn
+    simp only [build] at hb
+    cases ha : build a with
+    | none => simp [ha] at hb
+    | some x =>
+      cases hb' : build b with
+      | none => simp [ha, hb'] at hb
+      | some y =>
+        simp only [ha, hb', BinK.isArith, if_true, Option.some.injEq] at hb
+        subst hb
+        have nx : OpndE x := by
+          rcases hua with h | h
+          · exact build_str a x h ha
+          · exact (build_num a x h ha).opnd
+        have ny : OpndE y := by
+          rcases hub with h | h
+          · exact build_str b y h hb'
+          · exact (build_num b y h hb').opnd
+        have ex : evalCore env d x = evalNumU env d a := by
+          rcases hua with h | h
+          · exact build_str_eval env d a x h hn.1.2 ha
+          · exact build_num_eval env d a x h hn.1.2 ha
+        have ey : evalCore env d y = evalNumU env d b := by
+          rcases hub with h | h
+          · exact build_str_eval env d b y h hn.2 hb'
+          · exact build_num_eval env d b y h hn.2 hb'
+        have h1 := adapt_concat (tyOf x) (tyOf y)
+        show evalCore env d (binaryOperate x .concat_op y) = _
+        unfold binaryOperate
+        have e : adaptExpression .concat_op (tyOf x) (tyOf y) =
+            (.concat_op, (adaptExpression .concat_op (tyOf x) (tyOf y)).2) := Prod.ext h1 rfl
+        rw [e]
+        simp only
+        rw [constructForOp_eval env d x y .concat_op _ none rfl nx.core nx.wg ny.core ny.wg, ex, ey]
+        simp only [evalNumU, BinK.op]
+  | .li _, _, hu, _, _ => by simp [StrU] at hu
+  | .ln _, _, hu, _, _ => by simp [StrU] at hu
+  | .lb _, _, hu, _, _ => by simp [StrU] at hu
+  | .null, _, hu, _, _ => by simp [StrU] at hu
+  | .true_, _, hu, _, _ => by simp [StrU] at hu
+  | .false_, _, hu, _, _ => by simp [StrU] at hu
+  | .like _ _ _ _, _, hu, _, _ => by simp [StrU] at hu
+  | .neg _, _, hu, _, _ => by simp [StrU] at hu
+  | .not_ _, _, hu, _, _ => by simp [StrU] at hu
+  | .between _ _ _, _, hu, _, _ => by simp [StrU] at hu
+  | .and_ _, _, hu, _, _ => by simp [StrU] at hu
+  | .or_ _, _, hu, _, _ => by simp [StrU] at hu
+  | .case_ _ _ _, _, hu, _, _ => by simp [StrU] at hu
+  | .cast _ _, _, hu, _, _ => by simp [StrU] at hu
+  | .coalesce _, _, hu, _, _ => by simp [StrU] at hu
+  | .subq _ _, _, hu, _, _ => by simp [StrU] at hu
+  | .inOp _ _ _, _, hu, _, _ => by simp [StrU] at hu
+  | .tupleIn _ _ _, _, hu, _, _ => by simp [StrU] at hu
+  | .pi _, _, hu, _, _ => by simp [StrU] at hu
+  | .ps _, _, hu, _, _ => by simp [StrU] at hu
+  | .strop _ _ _ _, _, hu, _, _ => by simp [StrU] at hu
+  | .absent, _, hu, _, _ => by simp [StrU] at hu
+
 /-- **build_bool_eval**: the element built for a boolean API-call tree evaluates to the tree's
     three-valued meaning (and records sound negations), for every row -/
 theorem build_bool_eval (env : String → Val) (d : Dialect) : ∀ (u : U) (e : SaExpr), BoolU u = true →
@@ -1055,9 +1222,16 @@ theorem build_bool_eval (env : String → Val) (d : Dialect) : ∀ (u : U) (e : 
     cases ha : build a with
     | none => simp [ha] at hb
     | some x =>
-      have nx := build_num a x hna ha
-      have hpl : isPyLit a = false := by cases a <;> first | rfl | (simp [NumU] at hna)
-      have ex := build_num_eval env d a x hna hn3.1 ha
+      have nx : OpndE x := by
+        rcases hna with h | h
+        · exact (build_num a x h ha).opnd
+        · exact build_str a x h ha
+      have hpl : isPyLit a = false := by
+        cases a <;> first | rfl | (rcases hna with h | h <;> simp [NumU, StrU] at h)
+      have ex : evalCore env d x = evalNumU env d a := by
+        rcases hna with h | h
+        · exact build_num_eval env d a x h hn3.1 ha
+        · exact build_str_eval env d a x h hn3.1 ha
       cases hb' : build b with
       | none => simp [ha, hb'] at hb
       | some y =>
@@ -1074,7 +1248,7 @@ theorem build_bool_eval (env : String → Val) (d : Dialect) : ∀ (u : U) (e : 
             | some k' => simpa [hr] using hb
           have hk4 : k = .eq ∨ k = .ne ∨ k = .is_ ∨ k = .isnot := by
             rcases hbb with h | h
-            · simp [NumU] at h
+            · rcases h with h | h <;> simp [NumU, StrU] at h
             · simpa [Bool.or_eq_true, or_assoc] using h
           have hnull : Core SaExpr.null = true ∧ WG SaExpr.null = true := ⟨rfl, rfl⟩
           have key : ∀ (op' n' : Op), coreBin op' = true → associative op' = false →
@@ -1100,12 +1274,18 @@ theorem build_bool_eval (env : String → Val) (d : Dialect) : ∀ (u : U) (e : 
           · exact key .is_not .is_ rfl (by decide) ⟨soundPair_is.2, soundPair_is.1⟩ rfl
               (by simp [binVal, truth_ofTV, evalBoolU])
         ·
-          have hnb : NumU b = true := by
+          have hnb : NumU b = true ∨ StrU b = true := by
             rcases hbb with h | h
             · exact h
             · exact absurd (null_of_match b k h) hbn
-          have ny := build_num b y hnb hb'
-          have ey := build_num_eval env d b y hnb hn3.2 hb'
+          have ny : OpndE y := by
+            rcases hnb with h | h
+            · exact (build_num b y h hb').opnd
+            · exact build_str b y h hb'
+          have ey : evalCore env d y = evalNumU env d b := by
+            rcases hnb with h | h
+            · exact build_num_eval env d b y h hn3.2 hb'
+            · exact build_str_eval env d b y h hn3.2 hb'
           have hpr := pyReflected_num x y ny
           simp only [hpr, hpl, Bool.or_false, Bool.false_eq_true, if_false] at hb
           have hb2 : booleanCompare x k.op y (negateOp k.op) none = some e := by
